@@ -228,9 +228,144 @@ class _LoopForms(ast.NodeTransformer):
         return node
 
 
+def _exists_form(fn):
+    """a function whose body is `for x in IT: if C: return True` / `return False` (or the dual with `not` / False / True) is `return any(C for x in IT)` (`all(...)`)"""
+    body = [s_ for s_ in fn.body if not (isinstance(s_, ast.Expr) and isinstance(s_.value, ast.Constant))]
+    if len(body) != 2 or not isinstance(body[0], ast.For) or body[0].orelse or not isinstance(body[1], ast.Return) or not isinstance(body[1].value, ast.Constant):
+        return False
+    loop, last = body
+    if len(loop.body) != 1 or not isinstance(loop.body[0], ast.If) or loop.body[0].orelse or len(loop.body[0].body) != 1:
+        return False
+    inner = loop.body[0].body[0]
+    if not (isinstance(inner, ast.Return) and isinstance(inner.value, ast.Constant) and isinstance(inner.value.value, bool) and isinstance(last.value.value, bool)) or inner.value.value == last.value.value:
+        return False
+    test = loop.body[0].test
+    if inner.value.value is True:
+        call, elt = "any", test
+    else:
+        call, elt = "all", ast.UnaryOp(op=ast.Not(), operand=test)
+    gen = ast.GeneratorExp(elt=elt, generators=[ast.comprehension(target=loop.target, iter=loop.iter, ifs=[], is_async=0)])
+    ret = ast.Return(value=ast.Call(func=ast.Name(id=call, ctx=ast.Load()), args=[gen], keywords=[]))
+    for n in ast.walk(ret):
+        ast.copy_location(n, loop)
+    keep = [s_ for s_ in fn.body if isinstance(s_, ast.Expr) and isinstance(s_.value, ast.Constant)]
+    fn.body = keep + [ret]
+    return True
+
+
+def _stable_alias_inline(cls: ast.ClassDef):
+    """locals that merely abbreviate a *stable* field of the object are written out again:
+
+        ev = self._event; is_set = ev.is_set; while not is_set(): ...     ->     while not self._event.is_set(): ...
+
+    A field is stable when no method except __init__ assigns it (so the object it names is the same whenever it is read).  Only locals that are
+    assigned exactly once in the function, at its top level, from `self.<stable field>` or from an attribute of such a local are replaced."""
+    rebound = set()
+    for f in cls.body:
+        if isinstance(f, (ast.FunctionDef, ast.AsyncFunctionDef)) and f.name != "__init__":
+            for n in ast.walk(f):
+                tg = []
+                if isinstance(n, ast.Assign):
+                    tg = n.targets
+                elif isinstance(n, (ast.AugAssign, ast.AnnAssign)):
+                    tg = [n.target]
+                elif isinstance(n, (ast.For, ast.AsyncFor)):
+                    tg = [n.target]
+                elif isinstance(n, (ast.With, ast.AsyncWith)):
+                    tg = [i.optional_vars for i in n.items if i.optional_vars is not None]
+                elif isinstance(n, ast.Delete):
+                    tg = n.targets
+                for t in tg:
+                    for x in ast.walk(t):
+                        if isinstance(x, ast.Attribute) and isinstance(x.value, ast.Name) and x.value.id == "self" and isinstance(x.ctx, (ast.Store, ast.Del)):
+                            rebound.add(x.attr)
+    n_done = 0
+    for f in cls.body:
+        if not isinstance(f, (ast.FunctionDef, ast.AsyncFunctionDef)) or not f.args.args or f.args.args[0].arg != "self":
+            continue
+        params = {a.arg for a in f.args.args + f.args.kwonlyargs + f.args.posonlyargs} | ({f.args.vararg.arg} if f.args.vararg else set()) | ({f.args.kwarg.arg} if f.args.kwarg else set())
+        stores = {}
+        for n in ast.walk(f):
+            if isinstance(n, ast.Name) and isinstance(n.ctx, (ast.Store, ast.Del)):
+                stores[n.id] = stores.get(n.id, 0) + 1
+            elif isinstance(n, (ast.Global, ast.Nonlocal)):
+                for g in n.names:
+                    stores[g] = 99
+        alias = {}
+        for st in f.body:
+            if isinstance(st, ast.Assign) and len(st.targets) == 1 and isinstance(st.targets[0], ast.Name) and stores.get(st.targets[0].id) == 1 and st.targets[0].id not in params:
+                v = st.value
+                chain = []
+                while isinstance(v, ast.Attribute):
+                    chain.append(v.attr)
+                    v = v.value
+                if not chain or not isinstance(v, ast.Name):
+                    continue
+                if v.id == "self" and chain[-1] not in rebound and not chain[-1].startswith("__"):
+                    alias[st.targets[0].id] = st.value
+                elif v.id in alias:
+                    alias[st.targets[0].id] = _Subst(alias).visit(copy.deepcopy(st.value))
+        if not alias:
+            continue
+
+        class _R(ast.NodeTransformer):
+            def visit_Name(self, node):
+                if isinstance(node.ctx, ast.Load) and node.id in alias:
+                    new = copy.deepcopy(alias[node.id])
+                    for x in ast.walk(new):
+                        ast.copy_location(x, node)
+                    return new
+                return node
+        for st in f.body:
+            _R().visit(st)
+        n_done += len(alias)
+    return n_done
+
+
+class _ViewBlocks(ast.NodeTransformer):
+    """`with memoryview(E) as v: BODY`  ->  `v = memoryview(E); BODY`  (leaving the block only releases the read-only view)"""
+
+    def __init__(self):
+        self.n = 0
+
+    def _flat(self, stmts):
+        out = []
+        for s_ in stmts:
+            s_ = self.visit(s_)
+            if isinstance(s_, ast.With) and all(isinstance(it.context_expr, ast.Call) and isinstance(it.context_expr.func, ast.Name) and it.context_expr.func.id == "memoryview"
+                                               and (it.optional_vars is None or isinstance(it.optional_vars, ast.Name)) for it in s_.items):
+                self.n += 1
+                for it in s_.items:
+                    if it.optional_vars is not None:
+                        a = ast.Assign(targets=[ast.Name(id=it.optional_vars.id, ctx=ast.Store())], value=it.context_expr)
+                        ast.copy_location(a, s_)
+                        ast.fix_missing_locations(a)
+                        out.append(a)
+                out.extend(s_.body)
+            else:
+                out.append(s_)
+        return out
+
+    def generic_visit(self, node):
+        super().generic_visit(node)
+        for fld in ("body", "orelse", "finalbody"):
+            v = getattr(node, fld, None)
+            if isinstance(v, list) and v and isinstance(v[0], ast.stmt):
+                setattr(node, fld, self._flat(v))
+        return node
+
+
 def desugar(tree: ast.Module) -> ast.Module:
+    vb = _ViewBlocks()
+    vb.visit(tree)
+    n_al = sum(_stable_alias_inline(c) for c in ast.walk(tree) if isinstance(c, ast.ClassDef))
+    if n_al:
+        ast.fix_missing_locations(tree)
     lf = _LoopForms()
     tree.body = lf._stmts(tree.body)
+    n_ex = sum(1 for n in ast.walk(tree) if isinstance(n, ast.FunctionDef) and _exists_form(n))
+    if n_ex:
+        ast.fix_missing_locations(tree)
     if lf.n:
         ast.fix_missing_locations(tree)
     if not any(_is_reduce(n) for n in ast.walk(tree)):
